@@ -184,6 +184,8 @@ def cases(tier):
         add_msm(ident, (1 << 63) | 1, (1 << 30) | (1 << 16) | 1, 0b101101)
         add_msm(ident, msmref.first_n(64, 3, 5), msmref.first_n(32, 4, 7), 0xA5F)
         if level in (1, 7) or tier == "thorough":
+            # every satellite ID of the constellation at once (64 satellites x 1 signal)
+            add_msm(ident, (1 << 64) - 1, 1 << 30, (1 << 64) - 1)
             for g in range(32):
                 add_msm(ident, 1 << 50, 1 << (31 - g), 1)
                 add_msm(ident, (1 << 50) | (1 << 3), (1 << (31 - g)) | (1 << ((g + 7) % 32)), 0b1111)
